@@ -148,19 +148,15 @@ def build_conv(repo, external=(), canary=None, with_witness=True, boost=False):
     se = Woven(eq_rs, "fn", "syntactically_equal", log)
     U.strip_clippy(se)
     weave_syntactically_equal(se, sc)
-    fns = [se]
-    if os.environ.get("CONV_ONLY", "") != "eq":
-        no_rs = Source(repo, "src/normalizer.rs")
-        nw = Woven(no_rs, "fn", "normalize_weak_head", log)
-        U.strip_clippy(nw)
-        weave_normalize(nw, sc)
-        fns.append(nw)
-        if os.environ.get("CONV_ONLY", "") != "norm":
-            un_rs = Source(repo, "src/unifier.rs")
-            un = Woven(un_rs, "fn", "unify", log)
-            U.strip_clippy(un)
-            weave_unify(un, sc)
-            fns.append(un)
+    no_rs = Source(repo, "src/normalizer.rs")
+    nw = Woven(no_rs, "fn", "normalize_weak_head", log)
+    U.strip_clippy(nw)
+    weave_normalize(nw, sc)
+    un_rs = Source(repo, "src/unifier.rs")
+    un = Woven(un_rs, "fn", "unify", log)
+    U.strip_clippy(un)
+    weave_unify(un, sc)
+    fns = [se, nw, un]
     for f in fns:
         b.add_fn(f, external=f.name in external)
     if with_witness:
@@ -285,7 +281,38 @@ def weave_normalize(w, sc):
 
 
 def weave_unify(w, sc):
-    raise LostAnchor("unify: weaving not built yet")
+    w.contract(sc["unify.contract"], ret="r", attrs="#[verifier::exec_allows_no_decreases_clause]")
+    w.body_first(sc["unify.first"])
+    # the two weak-head normal forms
+    locs = normalized_locals(w, 0, len(w.lines) - 1)
+    if len(locs) != 2 or locs[0][2] != "term1" or locs[1][2] != "term2":
+        raise LostAnchor(f"{w.src.rel} fn unify: expected `let A = normalize_weak_head(term1, ..); let B = normalize_weak_head(term2, ..);`")
+    w1, w2 = locs[0][1], locs[1][1]
+    i = w.find(r"^    match \(&%s\.variant, &%s\.variant\) \{$" % (w1, w2))
+    insert_at(w, i, sc["unify.match.pre"].replace("$W1", w1).replace("$W2", w2), anchor="before the structural comparison")
+    # R9: identity of two unresolved holes (guard of the first arm)
+    n = w.rewrite_regex("R9-hole-identity", r"Rc::ptr_eq\((\w+), (\w+)\)", r"hole_ptr_eq(\1, \2)", note="pointer identity of two hole cells through a stub without contract (the arm is unreachable under the precondition)")
+    if n != 1:
+        raise LostAnchor(f"{w.src.rel} fn unify: expected one Rc::ptr_eq site, found {n}")
+    # R6: the two hole-solving arms
+    done = 0
+    for head in (r"^        \(Unifier\(\w+, \w+\), _\)$", r"^        \(_, Unifier\(\w+, \w+\)\)$"):
+        i = w.find(head)
+        k = None
+        for q in range(i + 1, min(i + 6, len(w.lines))):
+            if w.lines[q] == "        {" and w.lines[q - 1].rstrip().endswith("=>"):
+                k = q
+                break
+        if k is None:
+            raise LostAnchor(f"{w._where(i)}: hole-solving arm of unify not in the expected shape")
+        e = w.block_end(k)
+        text = "\n".join(w.lines[k + 1 : e])
+        if "borrow_mut()" not in text:
+            raise LostAnchor(f"{w._where(k)}: expected the arm that writes the hole cell")
+        w.log["dropped"].append({"site": w._where(k + 1), "text": text, "why": "R6: arm that solves an UNRESOLVED hole (occurs check, write through borrow_mut); unreachable under the precondition -- replaced by a call whose precondition is false, so Verus proves it dead"})
+        w.rewrite_lines("R6-hole-arm", k + 1, e - 1, ["            dead_hole_arm()"], note="arm body replaced by a call whose precondition is false")
+        done += 1
+    U.rewrite_bigint_ops(w)
 
 
 if __name__ == "__main__":
